@@ -35,21 +35,23 @@ type lvar struct {
 
 type ltr struct {
 	*tr
-	p       *packages.Package
-	fname   string
-	recv    string          // receiver identifier ("" = none)
-	recvObj types.Object    // its object
-	mutRecv []lvar          // receiver fields assigned by the function (returned next to the result)
-	scope   []lvar          // variables in scope, in order of appearance
-	aux     []string        // loop fixpoints, emitted before the function
-	nloop   int
-	g       []string        // bounds guards of the expression being translated
-	inFunc  bool            // a `return` is allowed here (not inside a loop body / join)
-	retCls  string
-	flat    map[string]bool // x_f for fields of local struct variables read inside an extracted loop
-	inLoop  int             // > 0: `break` allowed (leaves the innermost loop)
-	brk     bool            // the loop being translated contains a break: its body yields (continue?, state)
-	brkRet  string          // what `break` evaluates to in that body
+	p           *packages.Package
+	fname       string
+	recv        string       // receiver identifier ("" = none)
+	recvObj     types.Object // its object
+	mutRecv     []lvar       // receiver fields assigned by the function (returned next to the result)
+	scope       []lvar       // variables in scope, in order of appearance
+	aux         []string     // loop fixpoints, emitted before the function
+	nloop       int
+	g           []string // bounds guards of the expression being translated
+	inFunc      bool     // a `return` is allowed here (not inside a loop body / join)
+	retCls      string
+	flat        map[string]bool // x_f for fields of local struct variables read inside an extracted loop
+	inLoop      int             // > 0: `break` allowed (leaves the innermost loop)
+	brk         bool            // the loop being translated contains a break: its body yields (continue?, state)
+	brkRet      string          // what `break` evaluates to in that body
+	elemMethods []string        // methods called on the elements of an LT slice (parameters of the generated section)
+	sliceRecv   string          // the receiver when it is an LT slice: the function returns it
 }
 
 func (t *ltr) clsL(ty types.Type) string {
@@ -59,6 +61,9 @@ func (t *ltr) clsL(ty types.Type) string {
 	if s, ok := ty.Underlying().(*types.Slice); ok {
 		if c := t.cls(s.Elem()); c == "N" {
 			return "L"
+		}
+		if _, ok := s.Elem().Underlying().(*types.Struct); ok {
+			return "LT" // a slice of opaque elements: read through their methods, reordered by swaps
 		}
 		return "?"
 	}
@@ -86,6 +91,8 @@ func coqTy(c string) string {
 		return "bool"
 	case "L":
 		return "list N"
+	case "LT":
+		return "list T"
 	}
 	return "UNTRANSLATABLE_type"
 }
@@ -242,6 +249,24 @@ func (t *ltr) lexpr(e ast.Expr) string {
 		if id, ok := x.Fun.(*ast.Ident); ok && id.Name == "append" && len(x.Args) == 2 && c == "L" && t.clsL(t.info.Types[x.Args[1]].Type) == "N" {
 			return "(" + t.lexpr(x.Args[0]) + " ++ [" + t.lexpr(x.Args[1]) + "])"
 		}
+		if sel, ok := x.Fun.(*ast.SelectorExpr); ok && len(x.Args) == 0 && c == "N" {
+			if ix, ok := sel.X.(*ast.IndexExpr); ok && t.clsL(t.info.Types[ix.X].Type) == "LT" && t.clsL(t.info.Types[ix.Index].Type) == "Z" {
+				a, i := t.lexpr(ix.X), t.lexpr(ix.Index)
+				m := sel.Sel.Name
+				seen := false
+				for _, e := range t.elemMethods {
+					seen = seen || e == m
+				}
+				if !seen {
+					t.elemMethods = append(t.elemMethods, m)
+				}
+				t.g = append(t.g, "(inbT "+a+" "+i+")")
+				return "(keyAt " + m + " " + a + " " + i + ")"
+			}
+		}
+		if id, ok := x.Fun.(*ast.Ident); ok && id.Name == "len" && len(x.Args) == 1 && t.clsL(t.info.Types[x.Args[0]].Type) == "LT" {
+			return "(Z.of_nat (length " + t.lexpr(x.Args[0]) + "))"
+		}
 		if id, ok := x.Fun.(*ast.Ident); ok && id.Name == "len" && len(x.Args) == 1 && t.clsL(t.info.Types[x.Args[0]].Type) == "L" {
 			return "(Z.of_nat (length " + t.lexpr(x.Args[0]) + "))"
 		}
@@ -279,6 +304,12 @@ func (t *ltr) assignedIn(list []ast.Stmt, out map[string]bool, local map[string]
 	for _, s := range list {
 		switch x := s.(type) {
 		case *ast.AssignStmt:
+			if a, _, _, ok := t.swapOf(x); ok {
+				if !local[a] {
+					out[a] = true
+				}
+				continue
+			}
 			if len(x.Lhs) != 1 || len(x.Rhs) != 1 {
 				return false
 			}
@@ -417,6 +448,9 @@ func (t *ltr) lstmts(list []ast.Stmt, k string, ind string) string {
 		if !t.inFunc {
 			return t.fail(s, "return inside a loop body or a joining branch")
 		}
+		if len(x.Results) == 0 && t.sliceRecv != "" {
+			return "Ret " + t.sliceRecv
+		}
 		if len(x.Results) == 1 {
 			return t.guarded(func() string { return t.lexpr(x.Results[0]) }, func(v string) string {
 				if len(t.mutRecv) > 0 {
@@ -445,6 +479,13 @@ func (t *ltr) lstmts(list []ast.Stmt, k string, ind string) string {
 			}
 		}
 	case *ast.AssignStmt:
+		if a, i, j, ok := t.swapOf(x); ok && t.inScope(a) {
+			t.g = nil
+			vi, vj := t.lexpr(i), t.lexpr(j)
+			g := append(t.g, "(inbT "+a+" "+vi+")", "(inbT "+a+" "+vj+")")
+			t.g = nil
+			return "if negb (" + strings.Join(g, " && ") + ") then Panic else\n" + ind + "let " + a + " := swapT " + a + " " + vi + " " + vj + " in\n" + ind + t.lstmts(rest, k, ind)
+		}
 		if len(x.Lhs) == 1 && len(x.Rhs) == 1 {
 			n, ok := t.varName(x.Lhs[0])
 			if !ok {
@@ -597,7 +638,7 @@ func (t *ltr) recvAssigned(fd *ast.FuncDecl) []string {
 	return order
 }
 
-var cursorFuncs = []string{"EntriesCursor_linearSkipTo", "EntriesCursor_SkipTo"}
+var cursorFuncs = []string{"EntriesCursor_linearSkipTo", "EntriesCursor_SkipTo", "FieldCursors_Sort"}
 
 // the receiver's integer / slice fields, in declaration order, as variables recv_<field>
 func (t *ltr) recvFields(rt types.Type) []lvar {
@@ -641,6 +682,11 @@ func translateLoopFuncs(p *packages.Package, want []string) (defs []string, errs
 					t.recvObj = p.TypesInfo.Defs[fd.Recv.List[0].Names[0]]
 				}
 				if _, ok := wantSet[name]; ok {
+					if t.clsL(rt) == "LT" && t.recv != "" {
+						t.sliceRecv = mangle(t.recv)
+						t.declare(t.sliceRecv, "LT")
+						t.recv, t.recvObj = "", nil
+					}
 					for _, v := range t.recvFields(rt) {
 						t.declare(v.name, v.cls)
 					}
@@ -665,7 +711,22 @@ func translateLoopFuncs(p *packages.Package, want []string) (defs []string, errs
 				}
 			}
 			text := ""
-			if fd.Type.Results == nil || len(fd.Type.Results.List) != 1 {
+			if t.sliceRecv != "" && (fd.Type.Results == nil || len(fd.Type.Results.List) == 0) {
+				var pdecl []string
+				for _, v := range t.scope[:nparams] {
+					pdecl = append(pdecl, fmt.Sprintf("(%s : %s)", v.name, coqTy(v.cls)))
+				}
+				body := t.lstmts(fd.Body.List, "Ret "+t.sliceRecv, "  ")
+				text = fmt.Sprintf("Section %s_S.\nVariable T : Type.\n", name)
+				for _, m := range t.elemMethods {
+					text += fmt.Sprintf("Variable %s : T -> N.\n", m)
+				}
+				text += strings.Join(t.aux, "\n")
+				if len(t.aux) > 0 {
+					text += "\n"
+				}
+				text += fmt.Sprintf("Definition %s (fuel : nat) %s : res (list T) :=\n  %s.\nEnd %s_S.\n", name, strings.Join(pdecl, " "), body, name)
+			} else if fd.Type.Results == nil || len(fd.Type.Results.List) != 1 {
 				t.fail(fd, "exactly one result expected")
 			} else {
 				t.retCls = t.clsL(p.TypesInfo.TypeOf(fd.Type.Results.List[0].Type))
@@ -718,6 +779,21 @@ Definition bind {A B : Type} (r : res A) (f : A -> res B) : res B :=
 (* a[i] on a slice: the bounds test Go performs, and the element *)
 Definition inb (l : list N) (i : Z) : bool := ((0 <=? i)%Z && (i <? Z.of_nat (length l))%Z).
 Definition nthN (l : list N) (i : Z) : N := nth (Z.to_nat i) l 0%N.
+(* a slice of opaque elements: bounds test, a method's value at an index, the swap a[i], a[j] = a[j], a[i] *)
+Definition inbT {T : Type} (l : list T) (i : Z) : bool := ((0 <=? i)%Z && (i <? Z.of_nat (length l))%Z).
+Definition keyAt {T : Type} (k : T -> N) (l : list T) (i : Z) : N :=
+  match nth_error l (Z.to_nat i) with Some x => k x | None => 0%N end.
+Fixpoint updT {T : Type} (l : list T) (i : nat) (x : T) : list T :=
+  match l, i with
+  | [], _ => []
+  | _ :: r, O => x :: r
+  | y :: r, S i' => y :: updT r i' x
+  end.
+Definition swapT {T : Type} (l : list T) (i j : Z) : list T :=
+  match nth_error l (Z.to_nat i), nth_error l (Z.to_nat j) with
+  | Some a, Some b => updT (updT l (Z.to_nat i) b) (Z.to_nat j) a
+  | _, _ => l
+  end.
 `
 
 func cursorGen(pkgs map[string]*packages.Package) (string, []string) {
@@ -851,4 +927,34 @@ func rangeLoopGen(pkgs map[string]*packages.Package) (string, []string) {
 		sb.WriteString(d + "\n")
 	}
 	return sb.String(), errs
+}
+
+// a[i], a[j] = a[j], a[i] on an LT slice variable: (a, i, j)
+func (t *ltr) swapOf(x *ast.AssignStmt) (string, ast.Expr, ast.Expr, bool) {
+	if x.Tok != token.ASSIGN || len(x.Lhs) != 2 || len(x.Rhs) != 2 {
+		return "", nil, nil, false
+	}
+	var ix [4]*ast.IndexExpr
+	for k, e := range []ast.Expr{x.Lhs[0], x.Lhs[1], x.Rhs[0], x.Rhs[1]} {
+		i, ok := e.(*ast.IndexExpr)
+		if !ok {
+			return "", nil, nil, false
+		}
+		ix[k] = i
+	}
+	name := func(e *ast.IndexExpr) string {
+		if id, ok := e.X.(*ast.Ident); ok && t.clsL(t.info.Types[e.X].Type) == "LT" {
+			return mangle(id.Name)
+		}
+		return ""
+	}
+	a := name(ix[0])
+	if a == "" || name(ix[1]) != a || name(ix[2]) != a || name(ix[3]) != a {
+		return "", nil, nil, false
+	}
+	same := func(p, q ast.Expr) bool { return types.ExprString(p) == types.ExprString(q) }
+	if !same(ix[0].Index, ix[3].Index) || !same(ix[1].Index, ix[2].Index) {
+		return "", nil, nil, false
+	}
+	return a, ix[0].Index, ix[1].Index, true
 }
